@@ -29,6 +29,9 @@ def run(ctx):
         for _ in range(3):          # prepared several times: Go's map order changes between preparations
             wfs.append(w)
             kinds.append('valid-overlapping-references')
+    for w in pc.any_typed_consumer_shapes():
+        wfs.append(w)
+        kinds.append('valid-any-typed-consumer-of-an-engine-output')
     ok, oracle, st, out, conf = pc.prepare_oracle(ctx, wfs)
     if not ok:
         ctx.inconclusive('Prepare.tla failed or its confluence invariant is violated in the model: ' + out[-1500:])
